@@ -152,3 +152,23 @@ PROPS["C18"] = {
     "assumptions": ["arguments are presented to Eval as reflect.Values of the declared parameter type, as goom's own matcher does"],
     "floors": [("pairs", "equal-pairs", 2000), ("pairs", "unequal-pairs", 2000), ("pairs", "in-with->=2-alternatives", 2000)],
 }
+
+PROPS["C10"] = {
+    "units": [
+        {"name": "default", "pkg": "./zverif/c10", "run": "^TestVerifC10$", "env": {"VERIF_C10_MODE": "default"},
+         "timeout": {"quick": 300, "thorough": 1800}, "shards": {"quick": 1, "thorough": 4}},
+        {"name": "stripped", "pkg": "./zverif/c10", "run": "^TestVerifC10$", "env": {"VERIF_C10_MODE": "stripped"}, "build_flags": ["-ldflags=-s"],
+         "timeout": {"quick": 300, "thorough": 1800}, "shards": {"quick": 1, "thorough": 2}},
+        {"name": "pie", "pkg": "./zverif/c10", "run": "^TestVerifC10$", "env": {"VERIF_C10_MODE": "pie"}, "build_flags": ["-buildmode=pie"],
+         "timeout": {"quick": 300, "thorough": 1800}, "shards": {"quick": 1, "thorough": 2}},
+    ],
+    "rule": "three builds of the same test binary (default, -ldflags=-s, -buildmode=pie). Inputs: every function name of the binary's pclntab, every OBJECT "
+            "symbol of its .symtab plus harness-owned variables in .data/.bss/.noptrdata/.noptrbss whose addresses are known as &v, and rapid-generated "
+            "near-miss names (drop/insert/flip a character, strip or swap the package path, add (*T)., prefixes, suffixes) and fresh names. Oracle from "
+            "independent sources: pclntab entry + load slide (from /proc/self/maps), runtime.FuncForPC(addr).Entry()==addr and its name, .symtab FUNC value, "
+            "&variable; absent names must error; in the non-default builds the answer is an error, the documented ldflags panic, or the exact address. "
+            "Every looked-up name is distinct; non-trivial = a present symbol or a near-miss derived from one.",
+    "assumptions": ["debug/elf and debug/gosym (also used by goom) parse the binary correctly; the runtime's function table is an independent witness for functions"],
+    "floors": [("all-functions/default", "exact-function", 3000), ("all-variables/default", "exact-variable", 1000),
+               ("all-variables/default", "exact-own-variable", 5)],
+}
